@@ -96,6 +96,49 @@ def execute_run(mod, seed: int, run_index: int, tier: str, values=None, keep_tap
     return res
 
 
+def execute_run_isolated(mod, seed: int, run_index: int, tier: str):
+    """Execute one run in a forked child with a hard CPU limit.
+
+    A third-party optimiser looping forever inside C code cannot be interrupted by the Python-level CPU
+    guard; the kernel kills the child instead (RLIMIT_CPU, i.e. independent of the machine load) and the
+    run is reported as inconclusive - it is counted in the evidence and never a VIOLATION.
+    """
+    import pickle
+    import resource
+
+    r, w = os.pipe()
+    pid = os.fork()
+    if pid == 0:
+        code = 0
+        try:
+            os.close(r)
+            limit = int(getattr(mod, "CPU_LIMIT", 30)) + 20
+            resource.setrlimit(resource.RLIMIT_CPU, (limit, limit + 5))
+            res = execute_run(mod, seed, run_index, tier)
+            with os.fdopen(w, "wb") as f:
+                pickle.dump(res, f)
+        except BaseException:  # noqa: BLE001
+            code = 3
+        finally:
+            os._exit(code)
+    os.close(w)
+    with os.fdopen(r, "rb") as f:
+        data = f.read()
+    _, status = os.waitpid(pid, 0)
+    if data:
+        try:
+            return pickle.loads(data)
+        except Exception:  # noqa: BLE001
+            pass
+    sig = os.WTERMSIG(status) if os.WIFSIGNALED(status) else None
+    return {
+        "run": run_index, "status": "inconclusive", "violations": [], "digest": "killed",
+        "error": f"isolated run killed (signal {sig}, status {status}): hard CPU limit or crash inside a third-party library",
+        "fired": {}, "probes": {"run_killed_by_hard_cpu_limit": 1}, "case_key": None, "nontrivial": False, "sample": None,
+        "sim_time": 0.0, "steps": 0, "collected": {},
+    }
+
+
 def _quiet():
     import logging
     import warnings
@@ -130,8 +173,11 @@ def _worker_chunk(mname: str, seed: int, tier: str, indices, want_digests: bool)
     if not os.environ.get("VERIF_DEBUG"):
         sys.stderr = devnull
     try:
+        isolate = getattr(mod, "ISOLATE", False)
+        if isolate and hasattr(mod, "warmup"):
+            mod.warmup()  # import and build once what every forked child would otherwise rebuild
         for i in indices:
-            r = execute_run(mod, seed, i, tier)
+            r = execute_run_isolated(mod, seed, i, tier) if isolate else execute_run(mod, seed, i, tier)
             agg["n"] += 1
             agg["fired"].update(r["fired"])
             agg["probes"].update(r["probes"])
@@ -215,7 +261,11 @@ def minimise(mod, seed, tier, values, frames, target, budget=300):
                 # strip trailing zeros: exhausted tape reads as zeros anyway
                 while new and new[-1] == 0:
                     new = new[:-1]
-                if len(new) < len(best) or (len(new) == len(best) and new < best) or sum(new) < sum(best):
+                # smaller = shorter, then fewer non-zero choices, then smaller values
+                def key(tp):
+                    return (len(tp), sum(1 for v in tp if v), sum(tp))
+
+                if key(new) < key(best):
                     best = new
                     best_frames = r["frames"]
                     return True
@@ -267,6 +317,10 @@ def _minimise_job(mname, seed, tier, values, frames, target):
 def write_replay(prop, mname, seed, tier, run_index, res, target, minimised, n_min_exec, original_len):
     REPLAY_DIR.mkdir(parents=True, exist_ok=True)
     path = REPLAY_DIR / f"{prop}-{mname}-{seed}-{run_index}.json"
+    tape = list(res["tape"])
+    while tape and tape[-1] == 0:  # an exhausted tape reads as zeros: trailing zeros carry no information
+        tape.pop()
+    res = {**res, "tape": tape}
     data = {
         "property": prop,
         "machine": mname,
@@ -356,6 +410,21 @@ def run_check(prop: str, machines: list[str], tier: str, seed: int, out=sys.stdo
     jobs.sort(key=lambda j: (j[3], j[1][0] / max(1, per_machine[j[0]]["planned"])))
     skipped = 0
     with ProcessPoolExecutor(max_workers=workers, mp_context=ctx_mp) as pool:
+        # last line of defence: a batch that is still running long after its wall cap is killed and reported
+        # as a harness error (exit 2) instead of hanging
+        import threading
+
+        def _kill_pool():
+            print("HARNESS-ERROR batch exceeded its hard deadline; killing the workers", file=sys.stderr)
+            for proc in list(getattr(pool, "_processes", {}).values()):
+                try:
+                    proc.kill()
+                except Exception:  # noqa: BLE001
+                    pass
+
+        killer = threading.Timer(wall_cap + 900.0, _kill_pool)
+        killer.daemon = True
+        killer.start()
         futs = {}
         it = iter(jobs)
         pending = set()
@@ -402,6 +471,8 @@ def run_check(prop: str, machines: list[str], tier: str, seed: int, out=sys.stdo
                 submit_next()
         except BrokenProcessPool as exc:
             broken = f"worker process died (watchdog or crash): {exc}"
+        finally:
+            killer.cancel()
     wall_runs = time.time() - t0
 
     # determinism mini self-test
@@ -473,7 +544,10 @@ def run_check(prop: str, machines: list[str], tier: str, seed: int, out=sys.stdo
             res = {"violations": rec["violations"], "tape": rec["tape"], "digest": rec["digest"], "sample": rec["sample"], "tape_desc": []}
             path = write_replay(prop, name, seed, tier, rec["run"], res, target, False, n_exec, len(rec["tape"]))
             print(f"harness: minimised replay of {path.name} did not reproduce in a fresh interpreter; unminimised tape written", file=sys.stderr)
-        replay_lines.append((v, path, reproduced, len(res["tape"]), len(rec["tape"])))
+        n_min = len(res["tape"])
+        while n_min and res["tape"][n_min - 1] == 0:
+            n_min -= 1
+        replay_lines.append((v, path, reproduced, n_min, len(rec["tape"])))
 
     # evidence
     total_runs = sum(pm["n"] for pm in per_machine.values())
